@@ -33,5 +33,11 @@ func init() {
 		{"TemporallyCompatible.cond", condKernel(lf, "LogList.TemporallyCompatible", []string{"EndExclusive", "StartInclusive"}, "temporallyCompatibleCond", "(start limit t : Int)",
 			Spec{Repl: map[string]string{"cert.NotAfter": "t", "l.TemporalInterval.EndExclusive": "limit", "l.TemporalInterval.StartInclusive": "start"}})},
 		{"TemporallyCompatible.nilInterval", nilIntervalShape(lf)},
+		// the log server's window as configured: ValidateLogConfig stores the two timestamps verbatim and refuses limit < start;
+		// setUpLogInfo hands them to the validation options unchanged.
+		{"ValidateLogConfig.windowRefused", condKernel("trillian/ctfe/config.go", "ValidateLogConfig", []string{"NotAfterLimit", "NotAfterStart", "Before"}, "validateLogConfigWindowRefused", "(start limit : Option Int)",
+			Spec{Repl: map[string]string{"start != nil": "start.isSome", "limit != nil": "limit.isSome",
+				"(*vCfg.NotAfterLimit)": "(limit.getD 0)", "*vCfg.NotAfterStart": "(start.getD 0)"}})},
+		{"ValidateLogConfig.windowVerbatim", windowVerbatimShape()},
 	}})
 }
